@@ -25,6 +25,10 @@ def classify(chk, ev, run, clauses, clause_set, info=None):
         if c == "Completes":
             chk.violation("merge-raises:%s:%s" % (run["raised"]["type"], run["raised"]["where"]),
                           "merge raised %(type)s at %(where)s: %(msg)s" % run["raised"], rep)
+        elif c == "LinesProvenance" and "LinesProvenanceModGlue" not in clauses:
+            chk.violation("provenance:line-glued-to-unterminated-last-base-line",
+                          "merged source has a line made of the base's unterminated last line glued to an appended line "
+                          "(strategy %s)" % strat, rep)
         else:
             chk.violation("clause:%s" % c, "clause %s is false (strategy %s)" % (c, strat), rep)
 
